@@ -365,7 +365,16 @@ class PVLParser(object):
                         except (LexerError, ParseError):
                             raise
                         except Exception:
-                            raise ve
+                            # The Begin-Aggregation-Statement and whatever
+                            # followed it have been consumed, so this block
+                            # cannot be backed out of as a plain ValueError
+                            # would tell parse_module() to do (it would
+                            # silently drop the block): it is an error.
+                            tokens.throw(
+                                ValueError,
+                                f'The block "{begin} = {block_name}" is not '
+                                f"closed: {ve}"
+                            )
 
         return block_name, agg
 
